@@ -95,3 +95,8 @@ func (t *VerifMemConn) setInitialKEXDone()                                      
 // verifWaitIdle parks the calling harness goroutine until no other goroutine can make
 // progress. The instrumenter rewrites calls to it into the scheduler primitive WaitIdle.
 func verifWaitIdle() {}
+
+// verifMark tells the explorer that the interesting part of a scenario starts here
+// (scenarios explored "from the mark" place scheduling deviations only after it). The
+// instrumenter rewrites calls to it into the scheduler primitive Mark.
+func verifMark() {}
